@@ -27,7 +27,7 @@ open Ark
 
 /-! ## `Outcome` plumbing -/
 
-def obind {α β : Type} (x : Outcome α) (f : α → Outcome β) : Outcome β :=
+@[inline] def obind {α β : Type} (x : Outcome α) (f : α → Outcome β) : Outcome β :=
   match x with
   | .ok a => f a
   | .panic => .panic
@@ -37,13 +37,23 @@ scoped instance : Monad Outcome where
   bind := obind
 
 /-- `slice[i]` / `.unwrap()` -/
-def ofOption {α : Type} : Option α → Outcome α
+@[inline] def ofOption {α : Type} : Option α → Outcome α
   | some a => .ok a
   | none => .panic
 
-def omapM {α β : Type} (f : α → Outcome β) : List α → Outcome (List β)
-  | [] => .ok []
-  | a :: as => obind (f a) fun b => obind (omapM f as) fun bs => .ok (b :: bs)
+/-- `iter.map(f).collect()` where `f` may panic; accumulator form (the lists can be long) -/
+def omapMGo {α β : Type} (f : α → Outcome β) : List α → List β → Outcome (List β)
+  | [], acc => .ok acc.reverse
+  | a :: as, acc => obind (f a) fun b => omapMGo f as (b :: acc)
+
+def omapM {α β : Type} (f : α → Outcome β) (l : List α) : Outcome (List β) := omapMGo f l []
+
+/-- `slice.chunks(k)` (for `k > 0`; `fuel ≥` number of chunks), accumulator form -/
+def chunksGo {α : Type} (k : Nat) : Nat → List α → List (List α) → List (List α)
+  | 0, _, acc => acc.reverse
+  | fuel + 1, l, acc => if l.isEmpty then acc.reverse else chunksGo k fuel (l.drop k) (l.take k :: acc)
+
+def chunksOf {α : Type} (k : Nat) (l : List α) : List (List α) := chunksGo k l.length l []
 
 /-! ## window-size rule -/
 
@@ -183,7 +193,7 @@ def msmBigintWnaf (numBits : Nat) (bases : List G) (bigints : List (List Nat)) :
   obind (omapM (fun s => makeDigits s c numBits) scalars) fun ds =>
   let scalarDigits := ds.flatten
   -- `scalar_digits.chunks(digits_count)` is only evaluated inside the per-window closure
-  let pairs := (chunks digitsCount scalarDigits scalarDigits.length).zip bases
+  let pairs := (chunksOf digitsCount scalarDigits).zip bases
   obind (omapM (fun i => wnafWindow c i pairs) (List.range digitsCount)) fun windowSums =>
   combine c windowSums
 
@@ -237,8 +247,10 @@ structure Cfg where
   limbs : Nat
   negCheap : Bool
 
-/-- `ScalarField::MODULUS_BIT_SIZE` -/
-def Cfg.numBits (cfg : Cfg) : Nat := bitLen cfg.r
+/-- `ScalarField::MODULUS_BIT_SIZE = MODULUS.const_num_bits()`, i.e.
+    `((N - 1) * 64) as u32 + (64 - self.0[N - 1].leading_zeros())`: the bit length of `r` when the top limb of the
+    modulus is non-zero, and `64·(N−1)` for a (hand-written) configuration with more limbs than `r` needs -/
+def Cfg.numBits (cfg : Cfg) : Nat := (cfg.limbs - 1) * 64 + bitLen ((toLimbs cfg.limbs cfg.r).getLastD 0)
 /-- `s.into_bigint()` of the element with standard representative `s` -/
 def Cfg.intoBigint (cfg : Cfg) (s : Nat) : List Nat := toLimbs cfg.limbs s
 /-- `ScalarField::one().into_bigint()` -/
